@@ -40,6 +40,10 @@ ROOT_CASES = [
     ("eq", "i32", "5", "(int 5)", "== 5", "== 6", None),
     ("gt", "i32", "5", "(int 5)", "> 3", "> 7", None),
     ("range", "i32", "5", "(int 5)", "1..=5", "1..5", None),
+    ("range_neg_bound", "i32", "5", "(int 5)", "-1..=5", "-1..5", None),
+    ("range_neg_both", "i32", "-3", "(int -3)", "-5..=-1", "-2..=-1", None),
+    ("range_from", "i32", "5", "(int 5)", "5..", "6..", None),
+    ("range_to", "i32", "5", "(int 5)", "..=5", "..5", None),
     ("string", "String", "\"hello\".to_string()", "(str %s)" % hx("hello"), "\"hello\"", "\"x\"", None),
     ("regex", "String", "\"hello\".to_string()", "(str %s)" % hx("hello"), "=~ r\"^he\"", "=~ r\"^zz\"", None),
     ("closure", "i32", "5", "(int 5)", "|cl_x| cl_x > 3", "|cl_x| cl_x > 7", None),
@@ -59,7 +63,8 @@ ROOT_CASES = [
      "(map ((str %s) (int 1)) ((str %s) (int 2)))" % (hx("a"), hx("b")), "#{ \"a\": 1, .. }", "#{ \"a\": 2, .. }", "C08-map-multi-eval"),
 ]
 # patterns applied to `W` through the method chain h.bump() (METH) and to Debug-counting fields (DBG)
-METHOD_CASES = [("simple", "5", "6"), ("eq", "== 5", "== 6"), ("gt", "> 3", "> 7"), ("range", "1..=5", "1..5"), ("closure", "|cl_x| cl_x > 3", "|cl_x| cl_x > 7")]
+METHOD_CASES = [("simple", "5", "6"), ("eq", "== 5", "== 6"), ("gt", "> 3", "> 7"), ("range", "1..=5", "1..5"), ("closure", "|cl_x| cl_x > 3", "|cl_x| cl_x > 7"),
+                ("range_neg_bound", "-1..=5", "-1..5"), ("range_from", "5..", "6.."), ("range_to", "..=5", "..5"), ("ne", "!= 6", "!= 5"), ("le", "<= 5", "< 5")]
 # (passing, failing, whether the failing entry formats a value with the counting Debug impl)
 DEBUG_CASES = [("c: == 5", "c: == 6", True), ("c: > 3", "c: > 7", True), ("oc: Some(== 5)", "oc: Some(== 6)", True),
                ("oc: Some(_)", "oc: None", True), ("xs: [== 1, == 2]", "xs: [== 1, == 3]", True), ("xs: [== 1, ..]", "xs: [== 1]", True),
@@ -202,6 +207,20 @@ def run(res):
                       "trace on %d cases" % dis, {"first_disagreement": {"program_body": bad["body"], "real": bad["real"], "model_trace": bad["model"]}})
     if not dis and not failing:
         res.discharged.append(name)
+    # how often each value expression occurs in the generated code is fixed by the token-exact correspondence
+    # (c08_count_formula is about the model's expansion; the real one must be that expansion)
+    import expstage
+    name_x = "correspondence:expander(token-exact: occurrences of every value expression)"
+    res.obligations.append(name_x)
+    xrecs = expstage.run_stage(res, "quick", res.seed)
+    xdis = [r for r in xrecs if r.status == "ok" and r.tokens != r.model]
+    res.streams["expander"] = {"invocations": len(xrecs), "token_disagreements": len(xdis)}
+    if xdis and not failing and not dis:
+        res.violation("no-failing-input-found", "correspondence expander no longer checks: the real expansion differs from the model's on %d invocations "
+                      "(the evaluation-count theorems are about the model's expansion)" % len(xdis),
+                      {"first_disagreement": {"invocation": xdis[0].text, "difference": expstage.maclib.first_diff(xdis[0].tokens, xdis[0].model)}})
+    if not xdis:
+        res.discharged.append(name_x)
     res.streams["counts"] = {"cases": len(cases), "disagreements_with_model": dis, "property_failures": failing,
                              "known_classes_reproduced": sorted(known_seen)}
     res.coverage.update({
